@@ -739,6 +739,16 @@ class Resolver:
                 "reachable_functions": len(self.reachable)}
 
 
+def is_unbound_method_call(call, target):
+    """`Class.method(obj, ...)` for an instance method of Class (or of one of its bases): the receiver is passed explicitly."""
+    fn = call.func
+    if not (isinstance(fn, ast.Attribute) and isinstance(fn.value, ast.Name)) or target.cls is None or target.is_static \
+            or "classmethod" in target.decorators:
+        return False
+    names = {target.cls.name} | {c.name for c in target.cls.all_subclasses()}
+    return fn.value.id in names
+
+
 def bind_args(call: ast.Call, target: Func):
     """Bind the arguments of `call` to the parameters of `target`.
     -> {"bound": {param: expr}, "errors": [str], "star": bool}"""
@@ -746,6 +756,8 @@ def bind_args(call: ast.Call, target: Func):
     bound, errors = {}, []
     star = any(isinstance(a, ast.Starred) for a in call.args) or any(k.arg is None for k in call.keywords)
     pos = [a for a in call.args if not isinstance(a, ast.Starred)]
+    if is_unbound_method_call(call, target) and pos:
+        pos = pos[1:]                   # Class.method(self, ...): the first argument is the receiver
     for i, a in enumerate(pos):
         if i < len(params):
             bound[params[i]] = a
